@@ -19,3 +19,7 @@ import SpoxModel.Props.C18
 #print axioms C18.custom_build_sound_nested
 #print axioms C18.custom_node_value
 #print axioms C18.standard_node_value
+#print axioms C18.inference_pointwise
+#print axioms C18.declared_type_reported
+#print axioms C18.declared_types_carried
+#print axioms C18.untyped_result_refused
